@@ -34,6 +34,12 @@ def explore(core, rng, tier, seed, search=False):
     # astronomically long slices of zero-size elements (float arithmetic on the length, or len+size, must not be used): piece lengths only
     for n, size in ((2**53 + 1, 2**53), (2**53 + 3, (2**53 + 3) // 5), (2**62 + 7, 2**60), (2**63 - 1, 2**63 - 1), (2**63 - 1, 2**62), (2**53 + 1, 2**52 + 1), (10**17 + 1, 10**16)):
         scripts.append(["chunkunits %d %d %d" % (n, size, v) for v in ((0, 1, 2) if n - size + 1 <= 16 else (0, 1))])
+    # MANY chunks (more than 1024, 2048, 4096): a clamped or staged allocation only engages there; divisible and non-divisible lengths
+    for n, size in ((1024, 1), (1025, 1), (1026, 1), (2048, 2), (2049, 2), (2050, 2), (3072, 3), (3074, 3), (4097, 1), (5000, 4), (5001, 4), (9000, 2)):
+        scripts.append(["chunkunits %d %d %d" % (n, size, v) for v in (0, 1)])
+    for n, size in ((1025, 1), (2049, 2), (2048, 2), (1100, 1)):
+        l = lst(rng, n)
+        scripts.append(["chunk %s %d" % (l, size), "chunkfunc %s %d" % (l, size)])
     # malformed stream: size 0 / negative — outside the property; model vs implementation only
     for n in (0, 1, 3):
         l = lst(rng, n)
